@@ -237,10 +237,22 @@ def run(ctx, rep):
                 else:
                     okflow = False
         same = okflow and len(path_entries) == 1 and path_entries == name_entries
-        rep.ob("C20.same-entry", "deleted path and tested name come from the same DirEntry",
-               "ok" if same else ("violated" if path_entries and name_entries and okflow else "undecided"),
-               "path_from=%s name_from=%s" % (sorted(gfn.local_name(x) + "#%d" % x for x in path_entries),
-                                              sorted(gfn.local_name(x) + "#%d" % x for x in name_entries)), c.span, fn=gfn.path)
+        # a path that went through a resolving / rewriting call is no longer the entry that was tested
+        REWRITING = ("std::path::Path::canonicalize", "std::fs::canonicalize", "std::fs::read_link", "std::path::Path::read_link", "std::path::Path::parent",
+                     "std::path::Path::with_extension", "std::path::Path::with_file_name", "std::path::PathBuf::set_extension", "std::path::PathBuf::set_file_name",
+                     "std::path::PathBuf::pop", "std::path::Path::strip_prefix", "std::path::absolute")
+        through = []
+        if op_local(c.args[0]) is not None:
+            for a in rules.origin_calls(gfn, op_local(c.args[0]), transparent=rules.TRANSPARENT | {rules.TRY_BRANCH, "core::result::Result::unwrap",
+                                                                                                    "core::result::Result::expect", "core::option::Option::unwrap"}):
+                if a.matches(REWRITING):
+                    through.append(mir.short(a.callee()))
+        st_same = "ok" if same else ("violated" if (through or (path_entries and name_entries and okflow)) else "undecided")
+        rep.ob("C20.same-entry", "the path handed to remove_file is the tested directory entry's own path", st_same,
+               ("the deleted path goes through %s: it can name another file than the entry whose name was tested (e.g. the target of a symlink); " % through if through else "")
+               + "path_from=%s name_from=%s" % (sorted(gfn.local_name(x) + "#%d" % x for x in path_entries),
+                                                sorted(gfn.local_name(x) + "#%d" % x for x in name_entries)), c.span, fn=gfn.path)
+        rep.floor("C20.same-entry decided for the remove_file call", 0 if st_same == "undecided" else 1, 1)
         # the entry itself comes from the read_dir iterator
         for ent in path_entries:
             srcs = rules.origin_calls(gfn, ent, transparent=rules.TRANSPARENT | {rules.TRY_BRANCH})
